@@ -11,6 +11,12 @@ Theorem C14_no_lossy_bijection :
   forallb (fun m => let '(n, b, _) := m in negb b || negb (lossy n)) fn_meta = true.
 Proof. vm_compute. reflexivity. Qed.
 
+(* what Expr::reduce_modulo_bijection looks through (probed on every function, regenerated on every run) is
+   listed as a bijection, hence not lossy *)
+Theorem C14_reduction_strips_listed_bijections_only :
+  forallb (fun m => let '(n, s) := m in negb s || is_bij n) fn_strips = true.
+Proof. vm_compute. reflexivity. Qed.
+
 (* every function stripped on the way from a projection to its column is one the code lists *)
 Theorem C14_chain_listed : forall e, Forall (fun f => is_bij f = true) (chain is_bij e).
 Proof. exact (chain_all_bij is_bij). Qed.
@@ -83,6 +89,7 @@ Proof. vm_compute. repeat split. Qed.
 
 Check C14_unique_preserved.
 Print Assumptions C14_no_lossy_bijection.
+Print Assumptions C14_reduction_strips_listed_bijections_only.
 Print Assumptions C14_chain_listed.
 Print Assumptions C14_unique_preserved.
 Print Assumptions C14_rounding_bijections_refuted.
